@@ -330,6 +330,13 @@ func IsValidVoteproofsWithManifest(vps [2]Voteproof, manifest Manifest) error {
 		return e.Errorf("point does not match")
 	}
 
+	switch majority := avp.BallotMajority(); {
+	case avp.Result() != VoteResultMajority, majority == nil:
+		return e.Errorf("accept voteproof has no majority")
+	case !majority.NewBlock().Equal(manifest.Hash()):
+		return e.Errorf("new block of accept voteproof does not match with manifest")
+	}
+
 	return nil
 }
 
